@@ -1,6 +1,6 @@
 (* Proofs about model/VolumeConc.v (C38). *)
 From Coq Require Import List NArith ZArith Bool Lia Permutation.
-From SW Require Import model.Volume model.VolumeConc proof.VolumeProofs proof.VolumeConcStrict.
+From SW Require Import model.Volume model.VolumeConc proof.VolumeProofs.
 Import ListNotations.
 Local Open Scope N_scope.
 
@@ -41,17 +41,6 @@ Qed.
 
 Lemma anyb_existsb : forall (A : Type) (f : A -> bool) l, anyb f l = existsb f l.
 Proof. induction l as [|x l IH]; cbn [anyb existsb]; [reflexivity|]. rewrite IH. destruct (f x); reflexivity. Qed.
-
-Lemma take_first_spec : forall (A : Type) (f : A -> bool) l a rest,
-  take_first f l = Some (a, rest) -> f a = true /\ Permutation (a :: rest) l.
-Proof.
-  induction l as [|x l IH]; intros a rest H; cbn [take_first] in H; [discriminate|].
-  destruct (f x) eqn:E.
-  - inversion H; subst. split; [exact E | apply Permutation_refl].
-  - destruct (take_first f l) as [[y r']|] eqn:T; [|discriminate]. inversion H; subst.
-    destruct (IH _ _ eq_refl) as [Hf P]. split; [exact Hf|].
-    eapply perm_trans; [apply perm_swap|]. apply perm_skip. exact P.
-Qed.
 
 Section LinProofs.
   Context {Op Out St : Type}.
@@ -106,62 +95,6 @@ Section LinProofs.
       eapply IH; eauto.
       apply Permutation_length in P2. cbn [length] in *. lia.
   Qed.
-
-  Lemma greedy_sound : forall finb fuel st rem,
-    greedy nxt acc finb fuel st rem = true ->
-    exists lin st', Permutation lin rem /\ rt_ok lin = true /\ seq_ok nxt acc st lin = Some st' /\ finb st' = true.
-  Proof.
-    intros finb. induction fuel as [|f IH]; intros st rem H; destruct rem as [|x rem'].
-    - exists [], st. repeat split; auto.
-    - discriminate.
-    - exists [], st. repeat split; auto.
-    - cbn [greedy] in H.
-      destruct (take_first (may_next acc st (x :: rem')) (x :: rem')) as [[a rest]|] eqn:T; [|discriminate].
-      destruct (take_first_spec _ _ _ _ _ T) as [Hm P]. unfold may_next in Hm.
-      destruct (minimal a (x :: rem')) eqn:H1; [|discriminate].
-      assert (H1' : minimal a rest = true).
-      { rewrite <- (minimal_perm a _ _ P) in H1. unfold minimal in *. cbn [forallb] in H1.
-        apply andb_true_iff in H1. tauto. }
-      destruct (IH _ _ H) as (lin & st' & P' & RT & SQ & F).
-      exists (a :: lin), st'. repeat split.
-      + eapply perm_trans; [apply perm_skip; exact P' | exact P].
-      + cbn [rt_ok]. rewrite (minimal_perm a lin rest P'), H1', RT. reflexivity.
-      + cbn [seq_ok]. rewrite Hm. exact SQ.
-      + exact F.
-  Qed.
-
-  Theorem lin_greedy_sound : forall s0 (fin : St -> Prop) finb h,
-    (forall s, finb s = true -> fin s) ->
-    lin_greedy nxt acc s0 finb h = true -> linearizable nxt acc s0 fin h.
-  Proof.
-    intros s0 fin finb h Hf H. unfold lin_greedy in H. apply greedy_sound in H.
-    destruct H as (lin & st' & P & RT & SQ & F). exists lin, st'. auto.
-  Qed.
-
-  (* on a list that IS a linearization (in that order) the checker without backtracking answers yes *)
-  Lemma greedy_complete_ordered : forall finb lin st st' fuel,
-    (length lin <= fuel)%nat -> Forall (fun a => o_inv a <= o_res a) lin ->
-    rt_ok lin = true -> seq_ok nxt acc st lin = Some st' -> finb st' = true ->
-    greedy nxt acc finb fuel st lin = true.
-  Proof.
-    intros finb. induction lin as [|a r IH]; intros st st' fuel L W RT SQ F.
-    - destruct fuel; cbn [greedy]; cbn [seq_ok] in SQ; inversion SQ; subst; exact F.
-    - destruct fuel as [|f]; [cbn [length] in L; lia|]. cbn [greedy].
-      cbn [rt_ok] in RT. apply andb_true_iff in RT. destruct RT as [RT1 RT2].
-      cbn [seq_ok] in SQ. destruct (acc st (o_op a) (o_out a)) eqn:A; [|discriminate].
-      inversion W as [|? ? Wa Wr]; subst.
-      assert (M : may_next acc st (a :: r) a = true).
-      { unfold may_next, minimal. cbn [forallb]. unfold minimal in RT1. rewrite RT1.
-        assert (P : precedes a a = false) by (unfold precedes; apply N.ltb_ge; exact Wa).
-        rewrite P. cbn [negb andb]. exact A. }
-      cbn [take_first]. rewrite M. eapply IH; eauto. cbn [length] in L. lia.
-  Qed.
-
-  Theorem lin_greedy_complete_ordered : forall s0 finb lin st',
-    Forall (fun a => o_inv a <= o_res a) lin ->
-    rt_ok lin = true -> seq_ok nxt acc s0 lin = Some st' -> finb st' = true ->
-    lin_greedy nxt acc s0 finb lin = true.
-  Proof. intros. unfold lin_greedy. eapply greedy_complete_ordered; eauto. Qed.
 
   Theorem lin_check_sound : forall s0 (fin : St -> Prop) finb h,
     (forall s, finb s = true -> fin s) ->
@@ -222,6 +155,8 @@ Section LinProofs.
 End LinProofs.
 
 (* ================= Part 2: the machine ================= *)
+Lemma err_eqb_refl : forall e, err_eqb e e = true.
+Proof. destruct e; reflexivity. Qed.
 Lemma err_eqb_eq : forall a b, err_eqb a b = true -> a = b.
 Proof. destruct a, b; simpl; intro H; try discriminate; reflexivity. Qed.
 
@@ -376,10 +311,10 @@ Proof.
     intro a. destruct (a_id a =? id); split; reflexivity.
 Qed.
 
-Lemma mstep_inv : forall st0 m l m', minv st0 m -> is_syncfail l = false -> mstep m l = Some m' -> minv st0 m'.
+Lemma mstep_inv : forall st0 m l m', minv st0 m -> mstep m l = Some m' -> minv st0 m'.
 Proof.
-  intros st0 m l m' I NF H. pose proof (inv_pend _ _ I) as IP.
-  destruct l as [id c|id t|id|id t| | | |t| | | | |id| ]; cbn [mstep] in H; [| | | | | | | | |discriminate NF| | | |].
+  intros st0 m l m' I H. pose proof (inv_pend _ _ I) as IP.
+  destruct l as [id c|id t|id|id t| | | |t| | | |id| ]; cbn [mstep] in H.
   - destruct (id_used m id); [discriminate|]. inversion H; subst. apply minv_book; [exact I|].
     constructor; [cbn; lia | apply pend_mono; exact IP].
   - destruct (find_pend id (m_pend m)) as [p|] eqn:F; [|discriminate].
@@ -393,26 +328,26 @@ Proof.
   - destruct (find_pend id (m_pend m)) as [p|] eqn:F; [|discriminate].
     match type of H with (if ?b then _ else _) = _ => destruct b end; inversion H; subst.
     apply minv_apply; [exact I | eapply find_pend_in; exact F | intros r; discriminate].
-  - destruct (m_worker m) as [b|b|b|e b td|td]; try discriminate.
+  - destruct (m_worker m) as [b|b|b|b td|td]; try discriminate.
     destruct (m_queue m) as [|id q]; [discriminate|]. inversion H; subst.
     apply minv_book; [exact I|]. apply pend_mono. apply pend_set_pstat. exact IP.
-  - destruct (m_worker m) as [b|b|b|e b td|td]; try discriminate. inversion H; subst.
+  - destruct (m_worker m) as [b|b|b|b td|td]; try discriminate. inversion H; subst.
     apply minv_book; [exact I|]. apply pend_mono. exact IP.
-  - destruct (m_worker m) as [b|b|b|e b td|td]; try discriminate.
+  - destruct (m_worker m) as [b|b|b|b td|td]; try discriminate.
     destruct (m_lock m); [discriminate|]. inversion H; subst.
     apply minv_book; [exact I|]. apply pend_mono. exact IP.
-  - destruct (m_worker m) as [b|b|b|e b td|td]; try discriminate.
+  - destruct (m_worker m) as [b|b|b|b td|td]; try discriminate.
     destruct td as [|id todo]; [discriminate|].
     destruct (find_pend id (m_pend m)) as [p|] eqn:F; [|discriminate].
     destruct (is_pstat (p_stat p) PBatched); [|discriminate]. inversion H; subst.
     apply minv_apply; [exact I | eapply find_pend_in; exact F | intros r; discriminate].
-  - destruct (m_worker m) as [b|b|b|e b td|td]; try discriminate.
+  - destruct (m_worker m) as [b|b|b|b td|td]; try discriminate.
     destruct td; [|discriminate]. inversion H; subst.
     apply minv_book; [exact I|]. apply pend_mono. exact IP.
-  - destruct (m_worker m) as [b|b|b|e b td|td]; try discriminate.
+  - destruct (m_worker m) as [b|b|b|b td|td]; try discriminate.
     destruct td as [|id todo]; [discriminate|]. inversion H; subst.
     apply minv_astat; [exact I | reflexivity | left; reflexivity].
-  - destruct (m_worker m) as [b|b|b|e b td|td]; try discriminate.
+  - destruct (m_worker m) as [b|b|b|b td|td]; try discriminate.
     destruct td; [|discriminate]. inversion H; subst.
     apply minv_book; [exact I|]. apply pend_mono. exact IP.
   - destruct (find_appl id (m_lin m)) as [a|]; [|discriminate].
@@ -423,18 +358,11 @@ Proof.
     + eapply Forall_impl; [|exact I2]. apply appl_ok_mono.
 Qed.
 
-Lemma sync_ok_cons : forall l sched, sync_ok (l :: sched) = true -> is_syncfail l = false /\ sync_ok sched = true.
+Lemma mrun_inv : forall st0 sched m m', minv st0 m -> mrun m sched = Some m' -> minv st0 m'.
 Proof.
-  intros l sched H. unfold sync_ok in *. cbn [existsb] in H. apply negb_true_iff, orb_false_iff in H.
-  destruct H as [H1 H2]. split; [exact H1 | apply negb_true_iff; exact H2].
-Qed.
-
-Lemma mrun_inv : forall st0 sched m m', minv st0 m -> sync_ok sched = true -> mrun m sched = Some m' -> minv st0 m'.
-Proof.
-  intros st0. induction sched as [|l sched IH]; intros m m' I S H; cbn [mrun] in H.
+  intros st0. induction sched as [|l sched IH]; intros m m' I H; cbn [mrun] in H.
   - inversion H; subst. exact I.
-  - destruct (sync_ok_cons _ _ S) as [S1 S2].
-    destruct (mstep m l) as [m1|] eqn:E; [|discriminate]. eapply IH; [|exact S2|exact H]. eapply mstep_inv; eauto.
+  - destruct (mstep m l) as [m1|] eqn:E; [|discriminate]. eapply IH; [|exact H]. eapply mstep_inv; eauto.
 Qed.
 
 (* the order of the critical sections respects real time *)
@@ -457,63 +385,48 @@ Proof.
 Qed.
 
 (* ---- C38, with respect to the sequential volume model ---- *)
-(* the calls in the order of their critical sections *)
-Definition apply_order (m : mstate) : hist := map orec_of (rev (m_lin m)).
-
-Lemma machine_order : forall st0 b sched m,
-  mrun (minit st0 b) sched = Some m -> sync_ok sched = true -> complete m = true ->
-  Permutation (apply_order m) (history m) /\ rt_ok (apply_order m) = true /\
-  seq_ok vol_nxt vol_acc st0 (apply_order m) = Some (m_vol m) /\
-  Forall (fun a => o_inv a <= o_res a) (apply_order m).
+Theorem machine_linearizable : forall st0 b sched m,
+  mrun (minit st0 b) sched = Some m -> complete m = true ->
+  linearizable vol_nxt vol_acc st0 (fun st => st = m_vol m) (history m).
 Proof.
-  intros st0 b sched m Hrun Hs Hc.
-  pose proof (mrun_inv st0 sched _ _ (minv_init st0 b) Hs Hrun) as [I1 I2 I3 I4 I5].
-  unfold complete in Hc. destruct (m_pend m); [|discriminate]. unfold apply_order. repeat split.
+  intros st0 b sched m Hrun Hc.
+  pose proof (mrun_inv st0 sched _ _ (minv_init st0 b) Hrun) as [I1 I2 I3 I4 I5].
+  unfold complete in Hc. destruct (m_pend m); [|discriminate].
+  exists (map orec_of (rev (m_lin m))), (m_vol m). repeat split.
   - unfold history. apply Permutation_map. apply Permutation_sym. apply Permutation_rev.
   - eapply rt_ok_rev_lin; eauto.
   - exact I4.
-  - apply Forall_map. apply Forall_rev. rewrite Forall_forall in *. intros a Ha.
-    destruct (I2 a Ha) as (H1 & H2 & H3). rewrite forallb_forall in Hc. specialize (Hc a Ha).
-    unfold orec_of, is_done in *. cbn [o_inv o_res]. destruct (a_stat a); try discriminate. lia.
-Qed.
-
-Theorem machine_linearizable : forall st0 b sched m,
-  mrun (minit st0 b) sched = Some m -> sync_ok sched = true -> complete m = true ->
-  linearizable vol_nxt vol_acc st0 (fun st => st = m_vol m) (history m).
-Proof.
-  intros st0 b sched m Hrun Hs Hc. destruct (machine_order _ _ _ _ Hrun Hs Hc) as (P & RT & SQ & _).
-  exists (apply_order m), (m_vol m). repeat split; auto.
 Qed.
 
 (* every finished critical section lies between the Inv and the Res of its call *)
 Theorem machine_apply_between : forall st0 b sched m a,
-  mrun (minit st0 b) sched = Some m -> sync_ok sched = true -> In a (m_lin m) ->
+  mrun (minit st0 b) sched = Some m -> In a (m_lin m) ->
   a_inv a <= a_at a /\ match a_stat a with ADone r => a_at a < r | _ => True end.
 Proof.
-  intros st0 b sched m a Hrun Hs Hin.
-  pose proof (mrun_inv st0 sched _ _ (minv_init st0 b) Hs Hrun) as [I1 I2 I3 I4 I5].
+  intros st0 b sched m a Hrun Hin.
+  pose proof (mrun_inv st0 sched _ _ (minv_init st0 b) Hrun) as [I1 I2 I3 I4 I5].
   rewrite Forall_forall in I2. destruct (I2 a Hin) as (H1 & H2 & H3). split; [exact H1|].
   destruct (a_stat a); auto. tauto.
 Qed.
 
 (* in every reachable state the read-only flags are those of the volume as loaded ... *)
 Theorem machine_flags_const : forall st0 b sched m,
-  mrun (minit st0 b) sched = Some m -> sync_ok sched = true -> same_flags (m_vol m) st0.
+  mrun (minit st0 b) sched = Some m -> same_flags (m_vol m) st0.
 Proof.
-  intros st0 b sched m Hrun Hs.
-  exact (inv_flags _ _ (mrun_inv st0 sched _ _ (minv_init st0 b) Hs Hrun)).
+  intros st0 b sched m Hrun.
+  exact (inv_flags _ _ (mrun_inv st0 sched _ _ (minv_init st0 b) Hrun)).
 Qed.
 
 (* ... so, on a writable volume, the critical section of a write (sync path and worker alike) is
    doWriteRequest: the IsReadOnly() test that Volume.step repeats is the one LEnter made *)
 Theorem machine_write_is_do_write : forall st0 b sched m n t,
-  is_read_only st0 = false -> mrun (minit st0 b) sched = Some m -> sync_ok sched = true ->
+  is_read_only st0 = false -> mrun (minit st0 b) sched = Some m ->
   step (m_vol m) (t, Write n) =
   (fst (do_write (m_vol m) n t),
    OWrite (w_err (snd (do_write (m_vol m) n t))) (w_unchanged (snd (do_write (m_vol m) n t)))
           (w_size (snd (do_write (m_vol m) n t)))).
 Proof.
-  intros st0 b sched m n t Hro Hrun Hs. destruct (machine_flags_const _ _ _ _ Hrun Hs) as [F1 F2].
+  intros st0 b sched m n t Hro Hrun. destruct (machine_flags_const _ _ _ _ Hrun) as [F1 F2].
   unfold step, store_write. unfold is_read_only in *. rewrite F1, F2, Hro.
   destruct (do_write (m_vol m) n t) as [st' w]. reflexivity.
 Qed.
@@ -529,6 +442,28 @@ Proof.
 Qed.
 
 (* ================= Part 3: from the volume model to the register specification ================= *)
+Lemma seq_ok_vol : forall (lin : hist) st st',
+  seq_ok vol_nxt vol_acc st lin = Some st' ->
+  run st (map o_op lin) = map o_out lin /\ state_after st (map o_op lin) = st'.
+Proof.
+  induction lin as [|a lin IH]; intros st st' H; cbn [seq_ok map] in *.
+  - inversion H; subst. split; reflexivity.
+  - unfold vol_acc, vol_nxt in H. destruct (out_eqb (snd (step st (o_op a))) (o_out a)) eqn:E; [|discriminate].
+    apply out_eqb_eq in E. destruct (IH _ _ H) as [H1 H2].
+    cbn [run]. unfold state_after in *. cbn [fold_left]. destruct (step st (o_op a)) as [s1 o1]. cbn [fst snd] in *.
+    subst o1. rewrite H1. split; [reflexivity | exact H2].
+Qed.
+
+Lemma seq_ok_reg : forall (lin : hist) sp,
+  all2 match_out (spec_run sp (map o_op lin)) (map o_out lin) = true ->
+  seq_ok reg_nxt reg_acc sp lin = Some (spec_after sp (map o_op lin)).
+Proof.
+  induction lin as [|a lin IH]; intros sp H; cbn [map seq_ok]; [reflexivity|].
+  cbn [map spec_run] in H. unfold reg_acc, reg_nxt, spec_after. cbn [fold_left].
+  destruct (spec_step sp (o_op a)) as [sp1 e1]. cbn [all2] in H. apply andb_true_iff in H. destruct H as [H1 H2].
+  cbn [fst snd]. rewrite H1. apply IH. exact H2.
+Qed.
+
 Lemma no_conflict_sym : forall a b, no_conflict a b = no_conflict b a.
 Proof. intros. unfold no_conflict. apply andb_comm. Qed.
 
@@ -578,203 +513,79 @@ Proof.
     unfold needles_of. apply Permutation_flat_map. exact P.
 Qed.
 
-(* replaying an order that the volume model accepts on the register specification: every result is
-   accepted (C01's acceptance AND every field), the two final states are related *)
-Lemma seq_vol_to_reg : forall (lin : hist) st sp seen st',
-  R st sp seen -> sized st ->
-  wf_history (map o_op lin) = true -> empty_payload (map o_op lin) = false -> meta_dup seen (map o_op lin) = false ->
-  seq_ok vol_nxt vol_acc st lin = Some st' ->
-  seq_ok reg_nxt reg_acc sp lin = Some (spec_after sp (map o_op lin)) /\
-  R st' (spec_after sp (map o_op lin)) (seen_after seen (map o_op lin)) /\ sized st'.
-Proof.
-  induction lin as [|a lin IH]; intros st sp seen st' HR S Hwf He Hm SQ; cbn [map seq_ok] in *.
-  - inversion SQ; subst. split; [reflexivity | split; assumption].
-  - destruct (history_split (o_op a) (map o_op lin) seen Hwf He Hm) as (Hok & Hwf' & He' & Hm').
-    destruct (step_reg_acc st sp seen (o_op a) HR S Hok) as (A & HR' & S').
-    unfold vol_acc, vol_nxt in SQ.
-    destruct (out_eqb (snd (step st (o_op a))) (o_out a)) eqn:E; [|discriminate].
-    apply out_eqb_eq in E. rewrite E in A.
-    unfold reg_nxt at 1. rewrite A.
-    unfold spec_after, seen_after. cbn [fold_left]. fold (seen_after (seen_next seen (o_op a)) (map o_op lin)).
-    eapply IH; eauto.
-Qed.
+Lemma R_init_flags : forall a b, R (init_flags a b) (spec_flags a b) [].
+Proof. intros a b. exact (R_flags init spec_init [] a b R_init). Qed.
 
 (* a history that is linearizable w.r.t. the sequential volume model is linearizable w.r.t. the
-   register specification (C01's, with every field of every result), by the SAME order, and the
-   final volume agrees with the final register state -- inside the hypotheses of C01's refinement
-   theorem, on the sequential prefix and the calls together *)
-Lemma vol_order_to_reg : forall a b pre (lin h : hist) V,
-  conc_ok (pre ++ map o_op h) = true -> Permutation lin h ->
-  seq_ok vol_nxt vol_acc (start_vol a b pre) lin = Some V ->
-  exists sp', seq_ok reg_nxt reg_acc (start_spec a b pre) lin = Some sp' /\ agrees V sp'.
+   register specification of C01, by the SAME order, and the final volume agrees with the final
+   register state -- inside the hypotheses of C01's refinement theorem *)
+Theorem vol_lin_to_reg : forall a b (h : hist) V,
+  conc_ok (map o_op h) = true ->
+  linearizable vol_nxt vol_acc (init_flags a b) (fun st => st = V) h ->
+  linearizable reg_nxt reg_acc (spec_flags a b) (agrees V) h.
 Proof.
-  intros a b pre lin h V Hc P SQ.
-  assert (P' : Permutation (pre ++ map o_op h) (pre ++ map o_op lin)).
-  { apply Permutation_app_head. apply Permutation_map. apply Permutation_sym. exact P. }
-  destruct (conc_ok_perm _ _ P' Hc) as (Hwf & He & Hm).
-  destruct (hyps_app _ _ Hwf He Hm) as [(W1 & E1 & M1) (W2 & E2 & M2)].
-  destruct (start_R a b pre W1 E1 M1) as [HR0 S0].
-  destruct (seq_vol_to_reg lin _ _ _ _ HR0 S0 W2 E2 M2 SQ) as (SQ' & HR & S).
-  exists (spec_after (start_spec a b pre) (map o_op lin)). split; [exact SQ'|].
-  intros id c t.
-  assert (OK : ev_ok (seen_after (seen_after [] pre) (map o_op lin)) (t, RawRead id c false)) by (split; [reflexivity | exact I]).
-  destruct (step_reg_acc _ _ _ (t, RawRead id c false) HR S OK) as [M _]. exact M.
-Qed.
-
-Theorem vol_lin_to_reg : forall a b pre (h : hist) V,
-  conc_ok (pre ++ map o_op h) = true ->
-  linearizable vol_nxt vol_acc (start_vol a b pre) (fun st => st = V) h ->
-  linearizable reg_nxt reg_acc (start_spec a b pre) (agrees V) h.
-Proof.
-  intros a b pre h V Hc (lin & st' & P & RT & SQ & ->).
-  destruct (vol_order_to_reg a b pre lin h _ Hc P SQ) as (sp' & SQ' & Ag).
-  exists lin, sp'. repeat split; auto.
-Qed.
-
-(* the strict acceptance implies C01's: a linearization for reg_acc is one for reg_acc0 *)
-Lemma seq_ok_weaken : forall (lin : hist) sp sp',
-  seq_ok reg_nxt reg_acc sp lin = Some sp' -> seq_ok reg_nxt reg_acc0 sp lin = Some sp'.
-Proof.
-  induction lin as [|a lin IH]; intros sp sp' H; cbn [seq_ok] in *; [exact H|].
-  destruct (reg_acc sp (o_op a) (o_out a)) eqn:E; [|discriminate].
-  apply reg_acc_both in E. destruct E as [E _]. rewrite E. apply IH. exact H.
-Qed.
-
-Theorem reg_lin_weaken : forall sp0 (fin : spec -> Prop) (h : hist),
-  linearizable reg_nxt reg_acc sp0 fin h -> linearizable reg_nxt reg_acc0 sp0 fin h.
-Proof.
-  intros sp0 fin h (lin & st' & P & RT & SQ & F). exists lin, st'. repeat split; auto.
-  apply seq_ok_weaken. exact SQ.
+  intros a b h V Hc (lin & st' & P & RT & SQ & ->).
+  destruct (conc_ok_perm _ _ (Permutation_map o_op (Permutation_sym P)) Hc) as (Hwf & He & Hm).
+  destruct (seq_ok_vol _ _ _ SQ) as [Hrun Hst].
+  pose proof (R_init_flags a b) as HR0.
+  exists lin, (spec_after (spec_flags a b) (map o_op lin)). repeat split; auto.
+  - apply seq_ok_reg. rewrite <- Hrun. eapply refines_gen; eauto.
+  - intros id c t. pose proof (reach_R _ _ _ _ HR0 Hwf He Hm) as HR. rewrite Hst in HR.
+    assert (OK : ev_ok (seen_after [] (map o_op lin)) (t, RawRead id c false)) by (split; [reflexivity | exact I]).
+    destruct (step_R _ _ _ (t, RawRead id c false) HR OK) as [M _]. exact M.
 Qed.
 
 (* ---- C38, with respect to the register specification ---- *)
-Theorem machine_linearizable_reg_gen : forall a b pre stop sched m,
-  mrun (minit (start_vol a b pre) stop) sched = Some m -> sync_ok sched = true -> complete m = true ->
-  conc_ok (pre ++ map o_op (history m)) = true ->
-  linearizable reg_nxt reg_acc (start_spec a b pre) (agrees (m_vol m)) (history m).
-Proof.
-  intros a b pre stop sched m Hrun Hs Hc Hok. apply vol_lin_to_reg; [exact Hok|].
-  eapply machine_linearizable; eauto.
-Qed.
-
 Theorem machine_linearizable_reg : forall a b stop sched m,
-  mrun (minit (init_flags a b) stop) sched = Some m -> sync_ok sched = true -> complete m = true ->
+  mrun (minit (init_flags a b) stop) sched = Some m -> complete m = true ->
   conc_ok (map o_op (history m)) = true ->
   linearizable reg_nxt reg_acc (spec_flags a b) (agrees (m_vol m)) (history m).
 Proof.
-  intros a b stop sched m Hrun Hs Hc Hok.
-  exact (machine_linearizable_reg_gen a b [] stop sched m Hrun Hs Hc Hok).
+  intros a b stop sched m Hrun Hc Hok. apply vol_lin_to_reg; [exact Hok|].
+  eapply machine_linearizable; eauto.
 Qed.
 
 (* ---- the checkers used by the correspondence check ---- *)
-Theorem lin_check_vol_sound : forall a b pre f (h : hist),
-  lin_check_vol a b pre f h = true ->
-  linearizable vol_nxt vol_acc (start_vol a b pre) (fun st => vol_final f st = true) h.
-Proof. intros a b pre f h. apply lin_check_sound. auto. Qed.
+Theorem lin_check_vol_sound : forall fd fn (h : hist),
+  lin_check_vol fd fn h = true ->
+  linearizable vol_nxt vol_acc init (fun st => vol_final fd fn st = true) h.
+Proof. intros fd fn h. apply lin_check_sound. auto. Qed.
 
-Theorem lin_check_vol_complete : forall a b pre f (h : hist),
-  linearizable vol_nxt vol_acc (start_vol a b pre) (fun st => vol_final f st = true) h ->
-  lin_check_vol a b pre f h = true.
-Proof. intros a b pre f h. apply lin_check_complete. auto. Qed.
+Theorem lin_check_vol_complete : forall fd fn (h : hist),
+  linearizable vol_nxt vol_acc init (fun st => vol_final fd fn st = true) h ->
+  lin_check_vol fd fn h = true.
+Proof. intros fd fn h. apply lin_check_complete. auto. Qed.
 
-Theorem lin_check_reg_sound : forall a b pre fr (h : hist),
-  lin_check_reg a b pre fr h = true ->
-  linearizable reg_nxt reg_acc (start_spec a b pre) (fun sp => agrees_on fr sp = true) h.
-Proof. intros a b pre fr h. apply lin_check_sound. auto. Qed.
+Theorem lin_check_reg_sound : forall fr (h : hist),
+  lin_check_reg fr h = true ->
+  linearizable reg_nxt reg_acc spec_init (fun sp => agrees_on fr sp = true) h.
+Proof. intros fr h. apply lin_check_sound. auto. Qed.
 
-Theorem lin_check_reg_complete : forall a b pre fr (h : hist),
-  linearizable reg_nxt reg_acc (start_spec a b pre) (fun sp => agrees_on fr sp = true) h ->
-  lin_check_reg a b pre fr h = true.
-Proof. intros a b pre fr h. apply lin_check_complete. auto. Qed.
-
-Theorem lin_greedy_vol_sound : forall a b pre f (h : hist),
-  lin_greedy_vol a b pre f h = true ->
-  linearizable vol_nxt vol_acc (start_vol a b pre) (fun st => vol_final f st = true) h.
-Proof. intros a b pre f h. apply lin_greedy_sound. auto. Qed.
-
-Theorem lin_greedy_reg_sound : forall a b pre fr (h : hist),
-  lin_greedy_reg a b pre fr h = true ->
-  linearizable reg_nxt reg_acc (start_spec a b pre) (fun sp => agrees_on fr sp = true) h.
-Proof. intros a b pre fr h. apply lin_greedy_sound. auto. Qed.
-
-(* what the checker without backtracking accepts, the complete search accepts *)
-Theorem lin_greedy_le_check : forall (Op Out St : Type) (nxt : St -> Op -> St) (acc : St -> Op -> Out -> bool)
-    s0 finb (h : list (orec Op Out)),
-  lin_greedy nxt acc s0 finb h = true -> lin_check nxt acc s0 finb h = true.
-Proof.
-  intros Op Out St nxt acc s0 finb h H.
-  apply (lin_check_complete nxt acc s0 (fun s => finb s = true) finb h); [auto|].
-  apply (lin_greedy_sound nxt acc s0 (fun s => finb s = true) finb h); auto.
-Qed.
+Theorem lin_check_reg_complete : forall fr (h : hist),
+  linearizable reg_nxt reg_acc spec_init (fun sp => agrees_on fr sp = true) h ->
+  lin_check_reg fr h = true.
+Proof. intros fr h. apply lin_check_complete. auto. Qed.
 
 (* what the machine can produce is accepted by the checker: reads made after the run (at clock 0)
-   and the final .dat size / needle map entries / record sequence included *)
+   and the final .dat size / needle map entries included *)
 Definition read_after (st : vol) (x : N * N) : N * N * out :=
   (fst x, snd x, snd (step st (0, RawRead (fst x) (snd x) false))).
 
-Theorem machine_admitted : forall a b pre stop sched m keys f,
-  mrun (minit (start_vol a b pre) stop) sched = Some m -> sync_ok sched = true -> complete m = true ->
-  vol_final f (m_vol m) = true ->
-  lin_check_vol a b pre f (history m) = true /\
-  (conc_ok (pre ++ map o_op (history m)) = true ->
-   lin_check_reg a b pre (map (read_after (m_vol m)) keys) (history m) = true).
+Theorem machine_admitted : forall stop sched m keys fn,
+  mrun (minit init stop) sched = Some m -> complete m = true ->
+  forallb (nm_entry_eqb (m_vol m)) fn = true ->
+  lin_check_vol (dat_end (m_vol m)) fn (history m) = true /\
+  (conc_ok (map o_op (history m)) = true ->
+   lin_check_reg (map (read_after (m_vol m)) keys) (history m) = true).
 Proof.
-  intros a b pre stop sched m keys f Hrun Hs Hc Hf. split.
+  intros stop sched m keys fn Hrun Hc Hfn. split.
   - apply lin_check_vol_complete. eapply linearizable_weaken; [|eapply machine_linearizable; eauto].
-    cbv beta. intros s ->. exact Hf.
+    cbv beta. intros s ->. unfold vol_final. rewrite N.eqb_refl, Hfn. reflexivity.
   - intro Hok. apply lin_check_reg_complete.
-    eapply linearizable_weaken; [|exact (machine_linearizable_reg_gen a b pre stop sched m Hrun Hs Hc Hok)].
+    eapply linearizable_weaken; [|exact (machine_linearizable_reg false false stop sched m Hrun Hc Hok)].
     cbv beta. intros sp Hag. unfold agrees_on. apply forallb_forall.
     intros x Hx. apply in_map_iff in Hx. destruct Hx as [[id c] [<- _]]. unfold read_after. cbn [fst snd].
     apply Hag.
-Qed.
-
-Lemma agrees_reads : forall V sp keys, agrees V sp -> agrees_on (map (read_after V) keys) sp = true.
-Proof.
-  intros V sp keys Hag. unfold agrees_on. apply forallb_forall.
-  intros x Hx. apply in_map_iff in Hx. destruct Hx as [[id c] [<- _]]. unfold read_after. cbn [fst snd]. apply Hag.
-Qed.
-
-(* the same for the checker without backtracking, when the calls are listed in the order of their
-   critical sections *)
-Theorem machine_admitted_greedy : forall a b pre stop sched m keys f,
-  mrun (minit (start_vol a b pre) stop) sched = Some m -> sync_ok sched = true -> complete m = true ->
-  vol_final f (m_vol m) = true ->
-  lin_greedy_vol a b pre f (apply_order m) = true /\
-  (conc_ok (pre ++ map o_op (history m)) = true ->
-   lin_greedy_reg a b pre (map (read_after (m_vol m)) keys) (apply_order m) = true).
-Proof.
-  intros a b pre stop sched m keys f Hrun Hs Hc Hf.
-  destruct (machine_order _ _ _ _ Hrun Hs Hc) as (P & RT & SQ & W). split.
-  - unfold lin_greedy_vol. eapply lin_greedy_complete_ordered; eauto.
-  - intro Hok. destruct (vol_order_to_reg a b pre _ _ _ Hok P SQ) as (sp' & SQ' & Ag).
-    unfold lin_greedy_reg. eapply lin_greedy_complete_ordered; eauto. apply agrees_reads. exact Ag.
-Qed.
-
-(* the final observables of the machine's own volume: what vol_final is given in the theorem above *)
-Definition obs_of (st : vol) (ks : list N) (rk : list (N * N)) : fin_obs :=
-  {| f_dat := dat_end st;
-     f_nm := map (fun k => (k, match nm_get (nm st) k with Some nv => Some (nv_off nv, nv_size nv) | None => None end)) ks;
-     f_recs := map rsig_of (rev (recs st));
-     f_reads := map (read_after st) rk |}.
-
-Lemma rsig_eqb_refl : forall x, rsig_eqb x x = true.
-Proof. intros [[[a b] c] d]. unfold rsig_eqb. rewrite !N.eqb_refl. reflexivity. Qed.
-
-Lemma all2_refl : forall (A : Type) (f : A -> A -> bool) l, (forall x, f x x = true) -> all2 f l l = true.
-Proof. intros A f l H. induction l as [|x l IH]; cbn [all2]; [reflexivity|]. rewrite H, IH. reflexivity. Qed.
-
-Lemma vol_final_obs : forall st ks rk, vol_final (obs_of st ks rk) st = true.
-Proof.
-  intros st ks rk. unfold vol_final, obs_of. cbn [f_dat f_nm f_recs f_reads]. rewrite N.eqb_refl.
-  assert (H1 : forallb (nm_entry_eqb st)
-                 (map (fun k => (k, match nm_get (nm st) k with Some nv => Some (nv_off nv, nv_size nv) | None => None end)) ks) = true).
-  { apply forallb_forall. intros x Hx. apply in_map_iff in Hx. destruct Hx as [k [<- _]].
-    unfold nm_entry_eqb. cbn [fst snd]. destruct (nm_get (nm st) k) as [nv|]; [|reflexivity].
-    rewrite N.eqb_refl, Z.eqb_refl. reflexivity. }
-  rewrite H1. rewrite (all2_refl _ rsig_eqb _ rsig_eqb_refl).
-  unfold reads_eqb. apply forallb_forall. intros x Hx. apply in_map_iff in Hx. destruct Hx as [[id c] [<- _]].
-  unfold read_after. cbn [fst snd]. apply out_eqb_refl.
 Qed.
 
 (* ================= Part 4: witnesses ================= *)
@@ -789,117 +600,23 @@ Definition sched_empty : list label :=
 
 Lemma register_refuted :
   exists stop sched m,
-    mrun (minit init stop) sched = Some m /\ sync_ok sched = true /\ complete m = true /\
+    mrun (minit init stop) sched = Some m /\ complete m = true /\
     wf_history (map o_op (history m)) = true /\ pairwise_nc (needles_of (map o_op (history m))) = true /\
-    ~ linearizable reg_nxt reg_acc0 spec_init (fun _ => True) (history m).
+    ~ linearizable reg_nxt reg_acc spec_init (fun _ => True) (history m).
 Proof.
   exists false, sched_empty, (final_of false sched_empty).
-  split; [vm_compute; reflexivity|]. split; [vm_compute; reflexivity|]. split; [vm_compute; reflexivity|].
   split; [vm_compute; reflexivity|]. split; [vm_compute; reflexivity|].
-  intro H. apply (lin_check_complete reg_nxt reg_acc0 spec_init (fun _ => True) (fun _ => true)) in H; [|auto].
+  split; [vm_compute; reflexivity|]. split; [vm_compute; reflexivity|].
+  intro H. apply (lin_check_complete reg_nxt reg_acc spec_init (fun _ => True) (fun _ => true)) in H; [|auto].
   vm_compute in H. discriminate.
-Qed.
-
-Definition ex_needle (id cookie b : N) : needle :=
-  {| n_id := id; n_cookie := cookie; n_data := [b]; n_flags := 0; n_name := []; n_mime := []; n_pairs := [];
-     n_lastmod := 0; n_ttl := (0, 0) |}.
-
-(* the schedule one call of a one-goroutine program drives *)
-Definition sq_imm (i : N) (c : cop) : list label := [LInv i c; LEnter i 0; LApply i 0; LRes i].
-Definition sq_bat (i : N) (c : cop) (fail : bool) : list label :=
-  [LInv i c; LEnter i 0; LSend i; LRecv; LDecide; LLock; LWApply 0; (if fail then LSyncFail else LSync); LSubmit; LUnlock; LRes i].
-
-(* known finding 0: a batched overwrite whose Sync() fails.  The .dat file is truncated, the needle
-   map keeps the entry of the failed write: the caller got an error, yet the old value is gone (the
-   next read fails), and once another key's needle has been appended at that offset, a read of the
-   first key is served the other key's needle.  Inside C01's hypotheses, one goroutine. *)
-Definition sched_syncfail : list label :=
-  sq_bat 0 (CWrite (ex_needle 9 17 65) true) false ++ sq_imm 1 (CRead 9 17 false) ++
-  sq_bat 2 (CWrite (ex_needle 9 17 66) true) true ++ sq_imm 3 (CRead 9 17 false) ++
-  sq_bat 4 (CWrite (ex_needle 8 34 67) true) false ++ sq_imm 5 (CRead 9 17 false).
-
-Lemma syncfail_refuted :
-  exists stop sched m,
-    mrun (minit init stop) sched = Some m /\ complete m = true /\
-    conc_ok (map o_op (history m)) = true /\
-    ~ linearizable vol_nxt vol_acc init (fun _ => True) (history m) /\
-    ~ linearizable reg_nxt reg_acc0 spec_init (fun _ => True) (history m).
-Proof.
-  exists true, sched_syncfail, (final_of true sched_syncfail).
-  split; [vm_compute; reflexivity|]. split; [vm_compute; reflexivity|]. split; [vm_compute; reflexivity|].
-  split.
-  - intro H. apply (lin_check_complete vol_nxt vol_acc init (fun _ => True) (fun _ => true)) in H; [|auto].
-    vm_compute in H. discriminate.
-  - intro H. apply (lin_check_complete reg_nxt reg_acc0 spec_init (fun _ => True) (fun _ => true)) in H; [|auto].
-    vm_compute in H. discriminate.
-Qed.
-
-(* what the calls of that schedule answer: write ok; read A; write -> error; read -> error;
-   write of key 8 ok; read of key 9 -> the needle of key 8 (cookie 34, data C) *)
-Lemma syncfail_outputs :
-  map (fun a => (o_id a, o_out a)) (history (final_of true sched_syncfail)) =
-  [(5, ORead ENone 1 (view_of (ex_needle 8 34 67)));
-   (4, OWrite ENone false 6);
-   (3, ORead EOther 0 (blank_view 17));
-   (2, OWrite EOther false 6);
-   (1, ORead ENone 1 (view_of (ex_needle 9 17 65)));
-   (0, OWrite ENone false 6)].
-Proof. vm_compute. reflexivity. Qed.
-
-(* ---- histories the checkers reject (overlapping calls) ---- *)
-Definition hW (id inv res : N) (n : needle) : orec event out :=
-  mk_orec id inv res (0, Write n) (OWrite ENone false (needle_size n)).
-Definition hR (id inv res key c : N) (n : needle) : orec event out :=
-  mk_orec id inv res (0, RawRead key c false) (ORead ENone (Z.of_N (blen (n_data n))) (view_of n)).
-Definition hD (id inv res key c : N) (z : Z) : orec event out :=
-  mk_orec id inv res (0, RawDelete key c) (ODelete ENone z).
-
-Definition fin_free : fin_obs -> Prop := fun _ => True.
-
-(* (a) a stale read: W(A) done; W(B) overlaps a read that already sees B; a later read, started after
-   both writes returned, answers A.  The same history with B in the last read is accepted. *)
-Definition h_stale (last : N) : hist :=
-  [hW 0 0 1 (ex_needle 1 5 65); hW 1 2 5 (ex_needle 1 5 66); hR 2 3 4 1 5 (ex_needle 1 5 66);
-   hR 3 6 7 1 5 (ex_needle 1 5 last)].
-
-Lemma stale_read_rejected :
-  max_overlap (h_stale 65) = 2%nat /\
-  lin_check vol_nxt vol_acc init (fun _ => true) (h_stale 65) = false /\
-  lin_check reg_nxt reg_acc spec_init (fun _ => true) (h_stale 65) = false /\
-  lin_check reg_nxt reg_acc0 spec_init (fun _ => true) (h_stale 65) = false /\
-  lin_check vol_nxt vol_acc init (fun _ => true) (h_stale 66) = true /\
-  lin_check reg_nxt reg_acc spec_init (fun _ => true) (h_stale 66) = true.
-Proof. vm_compute. repeat split; reflexivity. Qed.
-
-(* (b) the double delete (what dropping the exclusive lock of syncDelete produces): a write, then two
-   overlapping deletes that BOTH answer the size of the needle.  Rejected by the volume model and by
-   the register specification with every field; C01's acceptance (error class only) lets it pass. *)
-Definition h_double_delete : hist :=
-  [hW 0 0 1 (ex_needle 1 5 65); hD 1 2 5 1 5 6; hD 2 3 4 1 5 6].
-Definition h_single_delete : hist :=
-  [hW 0 0 1 (ex_needle 1 5 65); hD 1 2 5 1 5 6; hD 2 3 4 1 5 0].
-
-Lemma double_delete_rejected :
-  lin_check vol_nxt vol_acc init (fun _ => true) h_double_delete = false /\
-  lin_check reg_nxt reg_acc spec_init (fun _ => true) h_double_delete = false /\
-  lin_check reg_nxt reg_acc0 spec_init (fun _ => true) h_double_delete = true /\
-  lin_check vol_nxt vol_acc init (fun _ => true) h_single_delete = true /\
-  lin_check reg_nxt reg_acc spec_init (fun _ => true) h_single_delete = true.
-Proof. vm_compute. repeat split; reflexivity. Qed.
-
-Lemma double_delete_not_linearizable :
-  ~ linearizable reg_nxt reg_acc spec_init (fun _ => True) h_double_delete /\
-  linearizable reg_nxt reg_acc0 spec_init (fun _ => True) h_double_delete.
-Proof.
-  split.
-  - intro H. apply (lin_check_complete reg_nxt reg_acc spec_init (fun _ => True) (fun _ => true)) in H; [|auto].
-    vm_compute in H. discriminate.
-  - apply (lin_check_sound reg_nxt reg_acc0 spec_init (fun _ => True) (fun _ => true)); [auto|].
-    vm_compute. reflexivity.
 Qed.
 
 (* non-vacuity: both write paths, a batch of two whose order in the channel is not the order
    of the invocations, a read overlapping the batch, a delete, a second key *)
+Definition ex_needle (id cookie b : N) : needle :=
+  {| n_id := id; n_cookie := cookie; n_data := [b]; n_flags := 0; n_name := []; n_mime := []; n_pairs := [];
+     n_lastmod := 0; n_ttl := (0, 0) |}.
+
 Definition sched_example : list label :=
   [LInv 0 (CWrite (ex_needle 1 5 65) true); LInv 1 (CWrite (ex_needle 1 5 66) true); LInv 2 (CRead 1 5 false);
    LEnter 0 0; LEnter 1 0; LSend 1; LSend 0; LRecv; LDecide; LRecv; LDecide; LEnter 2 0; LLock;
@@ -910,32 +627,12 @@ Definition sched_example : list label :=
 
 Lemma example_ok :
   let m := final_of true sched_example in
-  mrun (minit init true) sched_example = Some m /\ sync_ok sched_example = true /\ complete m = true /\
+  mrun (minit init true) sched_example = Some m /\ complete m = true /\
   conc_ok (map o_op (history m)) = true /\
   map (fun a => (o_id a, o_inv a, o_res a)) (history m) =
     [(5, 39, 45); (6, 40, 46); (4, 14, 38); (3, 24, 27); (2, 2, 23); (0, 0, 22); (1, 1, 18)] /\
   map (fun a => match o_out a with ORead e _ v => Some (err_eqb e ENone, v_data v) | _ => None end) (history m) =
     [Some (false, []); Some (true, [67]); None; None; Some (true, [65]); None; None] /\
-  max_overlap (history m) = 4%nat /\
-  lin_check_reg false false [] (map (read_after (m_vol m)) [(1, 5); (2, 7)]) (history m) = true /\
-  lin_check_vol false false [] (obs_of (m_vol m) [1; 2; 3] [(1, 5); (2, 7)]) (history m) = true /\
-  lin_greedy_reg false false [] (map (read_after (m_vol m)) [(1, 5); (2, 7)]) (apply_order m) = true /\
-  lin_greedy_vol false false [] (obs_of (m_vol m) [1; 2; 3] [(1, 5); (2, 7)]) (apply_order m) = true /\
-  (* the checker without backtracking depends on the order of the list: newest-first it commits to W0 before W1 *)
-  lin_greedy_vol false false [] (obs_of (m_vol m) [1; 2; 3] [(1, 5); (2, 7)]) (history m) = false.
+  lin_check_reg (map (read_after (m_vol m)) [(1, 5); (2, 7)]) (history m) = true /\
+  lin_check_vol (dat_end (m_vol m)) [] (history m) = true.
 Proof. vm_compute. repeat split; reflexivity. Qed.
-
-(* non-vacuity of the read-only start: a prefix writes key 1, then noWriteCanDelete is set; a write is
-   refused, a delete answers the size, a read finds the key deleted *)
-Definition pre_example : list event := [(0, Write (ex_needle 1 5 65))].
-Definition sched_ro : list label :=
-  [LInv 0 (CWrite (ex_needle 1 5 66) false); LEnter 0 0; LRes 0] ++ sq_imm 1 (CDelete 1 5) ++ sq_imm 2 (CRead 1 5 false).
-
-Lemma example_ro_ok :
-  exists m, mrun (minit (start_vol false true pre_example) false) sched_ro = Some m /\ complete m = true /\
-    conc_ok (pre_example ++ map o_op (history m)) = true /\
-    map (fun a => o_out a) (history m) = [ORead EDeleted (-1) (blank_view 5); ODelete ENone 6; OWrite EReadOnly false 0] /\
-    lin_check_reg false true pre_example [] (history m) = true.
-Proof.
-  eexists. split; [vm_compute; reflexivity|]. vm_compute. repeat split; reflexivity.
-Qed.
